@@ -168,7 +168,8 @@ func (s *BaseSeeder) readerLoop() {
 
 			// prune oldest session
 			sessions := s.peerSessions[op.peer.ID]
-			if len(sessions) > 2 {
+			_, resumed := s.sessions[sessionIDAndPeer{op.request.Session.ID, op.peer.ID}]
+			if len(sessions) > 2 && !resumed {
 				oldest := sessions[0]
 				sessions = sessions[1:]
 				delete(s.sessions, sessionIDAndPeer{oldest, op.peer.ID})
